@@ -622,7 +622,12 @@ def run_integrator_correspondence(ctx, n_cases, report_findings=False):
                           'one integrate() call appended more than one entry / lists of different lengths / evaluated '
                           'cos, sin at something else than phi + pa', {'case': describe_int(c)}, found_input=False)
             continue
-        t, xf, yf = int_term(c, cc, ss, res)
+        try:
+            t, xf, yf = int_term(c, cc, ss, res)
+        except ValueError:
+            ctx.violation('correspondence:C20I:non-finite', 'integrate() stored a non-finite value for a finite image',
+                          {'case': describe_int(c), 'impl': repr(res)}, found_input=False)
+            continue
         terms.append(t)
         kept.append((c, cc, ss, res, xf, yf))
         # properties of the unchanged code that the model states as theorems
@@ -691,7 +696,12 @@ def run_integrator_correspondence(ctx, n_cases, report_findings=False):
                           {'case': describe_ext(c), 'n_calls': len(ob['calls']), 'n_cos': len(ob['cos']),
                            'n_radius': len(ob['rad_log'])}, found_input=False)
             continue
-        terms.append(ext_term(c, ob))
+        try:
+            terms.append(ext_term(c, ob))
+        except ValueError:
+            ctx.violation('correspondence:C20I:non-finite', 'extract() returned a non-finite value for a finite image',
+                          {'case': describe_ext(c)}, found_input=False)
+            continue
         kept.append((c, ob))
     bad = ctx.coq_eval_cases(IMPORTS, 'check_ext_case', terms, case_type='ext_case', tag='c20i_ext')
     out['ext_disagreements'] = len(bad)
@@ -750,6 +760,10 @@ def run_integrator_correspondence(ctx, n_cases, report_findings=False):
             ctx.violation('correspondence:C20I:extract-raises', 'EllipseSample.extract() raised ' + repr(e)[:200],
                           {'case': describe_ext(c)}, found_input=False)
             continue
+        if not all(math.isfinite(v) for v in ob0['intens'] + ob1['intens']):
+            ctx.violation('correspondence:C20I:non-finite', 'extract() returned a non-finite value for a finite image',
+                          {'case': describe_ext(c)}, found_input=False)
+            continue
         vals = [Fraction(v) for v in ob0['intens']]
         ref, tie = exact_clip(vals, c['nclip'], Fraction(c['sclip']))
         ctx.stat('sigma_clip', 'kind:extract-run')
@@ -775,7 +789,12 @@ def run_integrator_correspondence(ctx, n_cases, report_findings=False):
                           'extract() with nclip > 0: radii / intensities / actual_points / total_points are not those of '
                           'the surviving positions', {'case': describe_ext(c)}, found_input=False)
             continue
-        terms.append(clip_term(c['nclip'], c['sclip'], ob0['intens'], a))
+        try:
+            terms.append(clip_term(c['nclip'], c['sclip'], ob0['intens'], a))
+        except ValueError:
+            ctx.violation('correspondence:C20I:non-finite', 'extract() returned a non-finite value for a finite image',
+                          {'case': describe_ext(c)}, found_input=False)
+            continue
         kept.append(({'extract': describe_ext(c)}, a))
     bad = ctx.coq_eval_cases(IMPORTS, 'check_clip_case', terms, case_type='clip_case', tag='c20i_clip')
     out['clip_disagreements'] = len(bad)
@@ -797,6 +816,14 @@ def run_integrator_correspondence(ctx, n_cases, report_findings=False):
         c = gen_area_case(rng)
         try:
             ob = run_area_case(c)
+            u = rng.random()               # steer towards the threshold  npix in range(7)  /  npix > 6
+            want = (6, 7) if u < 0.3 else (5, 8) if u < 0.45 else None
+            if want:
+                for _ in range(40):
+                    if ob['npix'] in want:
+                        break
+                    c = gen_area_case(rng)
+                    ob = run_area_case(c)
         except Exception as e:
             ctx.violation('correspondence:C20I:area-raises', 'area integrate() raised ' + repr(e)[:200],
                           {'case': describe_area(c)}, found_input=False)
@@ -806,6 +833,7 @@ def run_integrator_correspondence(ctx, n_cases, report_findings=False):
         ctx.stat('area', 'branch:' + ('range-test-failed' if not ob['polar'] and ob['res'] is None else
                                       'fallback-bilinear' if ob['npix'] < 7 else 'accumulated'))
         ctx.stat('area', 'appended:' + ('yes' if isinstance(ob['res'], tuple) else 'no'))
+        ctx.stat('area', 'npix:' + (str(ob['npix']) if 5 <= ob['npix'] <= 8 else '<5' if ob['npix'] < 5 else '>8'))
         ctx.count_case(('area', describe_area(c)), nontrivial=True)
         if ob['res'] == 'bad-lengths' or not area_loop_order_ok(ob) or (
                 isinstance(ob['res'], tuple) and (ob['res'][0] != c['phi'] or ob['res'][1] != ob['radius'])):
@@ -813,7 +841,12 @@ def run_integrator_correspondence(ctx, n_cases, report_findings=False):
                           'the area integrator does not visit  for j in range(j1, j2): for i in range(i1, i2)  / stores '
                           'another angle or radius than it was given', {'case': describe_area(c)}, found_input=False)
             continue
-        terms.append(area_term(c, ob))
+        try:
+            terms.append(area_term(c, ob))
+        except ValueError:
+            ctx.violation('correspondence:C20I:non-finite', 'area integrate() stored a non-finite value for a finite image',
+                          {'case': describe_area(c), 'impl': repr(ob['res'])}, found_input=False)
+            continue
         kept.append((c, ob))
     bad = ctx.coq_eval_cases(IMPORTS, 'check_area_case', terms, case_type='area_case', tag='c20i_area')
     out['area_disagreements'] = len(bad)
